@@ -489,4 +489,53 @@ def AbsBurst.wf (b : AbsBurst) : Bool :=
   | .rate r bits => bits.length == r.infoBits
   | _ => true
 
+/-! ## the diagnostic of `end_data_transmission` under ambient conditions (dead standard output)
+
+`print(repr(udp_ip))` writes to `sys.stdout`; when every write to it raises (reader of the pipe gone, disk
+full, descriptor closed) the `print` raises inside the same `try` as the decode, so the `except Exception`
+logs a warning and the reset to idle still happens.  Added for the hardening of C08 (nothing above changed). -/
+
+/-- what the diagnostic did -/
+inductive Diag
+  /-- SAP ≠ UDP/IP header compression or fewer than 5 octets of user data: nothing decoded, nothing written -/
+  | skipped
+  /-- decoded and written to `sys.stdout` -/
+  | printed
+  /-- decoded, the `print` raised: caught by the `except Exception` of the decode, warning logged -/
+  | printFailed
+  /-- `UDPIPv4CompressedHeader.from_bits` raised: warning logged, `sys.stdout` not touched -/
+  | undecodable
+  deriving DecidableEq, Repr
+
+/-- `stdoutDead`: every write to `sys.stdout` raises -/
+def diagOutcomeData (stdoutDead : Bool) (sap : Nat) (data : Bytes) : Diag :=
+  if sap == 3 && data.length ≥ 5 then
+    match udpDiag data with
+    | .error _ => .undecodable
+    | .ok () => if stdoutDead then .printFailed else .printed
+  else .skipped
+
+def diagOutcome (stdoutDead : Bool) (h : Hdr) (blocks : List Block) : Diag :=
+  match h with
+  | .data dh => diagOutcomeData stdoutDead dh.sap (userData blocks)
+  | .flc _ => .skipped
+
+/-- does an exception leave `end_data_transmission` between the `ended` notification and the reset to idle?
+`guardPrint = true` is the code as it is (the `print` inside the `try`); `false` is the "minimal try body"
+form with the `print` behind the `try`, which "processing never fails" forbids -/
+def Diag.escapes (guardPrint : Bool) : Diag → Bool
+  | .printFailed => !guardPrint
+  | _ => false
+
+/-- `end_data_transmission` with the diagnostic spelled out; the exception of a dead stream is an
+`OSError` / `ValueError` (`Err.value`) -/
+def endDataAmb (guardPrint stdoutDead : Bool) (m : M) : Except Err M :=
+  if m.tx.finished || m.tx.type != .data then .ok m else
+  match m.tx.header with
+  | none => .ok m
+  | some h =>
+    let m' := m.emit (.ev (.dataEnded h m.tx.blocks))
+    if (diagOutcome stdoutDead h m.tx.blocks).escapes guardPrint then .error .value
+    else .ok (newIdle m')
+
 end Dmr.Tracker
